@@ -25,7 +25,7 @@ META = {
         "abelian_core.AbelianArray.einsum",
     ],
     "floors": {
-        "quick": {"evaluations": 3000, "distinct_nontrivial": 600, "tables": {"op/tensordot": 1500, "op/matmul": 200, "op/trace": 100, "op/einsum": 200, "mode/fused": 300, "mode/blockwise": 300, "noalign": 10, "op/self-contraction": 3000}},
+        "quick": {"evaluations": 3000, "distinct_nontrivial": 600, "tables": {"op/tensordot": 1500, "op/matmul": 200, "op/trace": 100, "op/einsum": 200, "mode/fused": 300, "mode/blockwise": 300, "noalign": 10, "op/self-contraction": 3000, "feature/partial-product-count-not-a-power-of-two": 1200}},
         "thorough": {"evaluations": 150000, "distinct_nontrivial": 30000, "tables": {"op/tensordot": 80000, "op/matmul": 10000, "op/trace": 5000, "op/einsum": 10000, "noalign": 500}},
     },
     "wall": {"quick": 300, "thorough": 1500},
@@ -38,16 +38,52 @@ def dtype_for(rng):
     return rng.choice(["float64", "float64", "complex128", "float32", "complex64"])
 
 
-def case_tensordot(ctx, rng):
+def case_tensordot(ctx, rng, many_terms=False):
     import autoray as ar
 
     sr = ctx.sr
-    sym = rng.choice(gen.SYMS5)
+    sym = gen.pick_sym(rng)
     mode_vals = rng.choice(["int", "int", "gauss"])
     dt = dtype_for(rng) if mode_vals == "int" else rng.choice(["float64", "complex128"])
     vals = gen.Values(rng, mode_vals, dt)
     maxnd = 4 if rng.random() < 0.15 else 3
-    a, b, axa, axb = gen.contractible_pair(sr, rng, sym, False, maxnd=maxnd, values=vals, maxd=3 if maxnd == 3 else 2, p_ragged=0.12, p_hist=0.1, p_mixclass=0.08)
+    if many_terms:
+        # 2-3 contracted legs with 5-13 charges each: one output block receives 9..40 partial
+        # products (every element type, every mode)
+        sym = rng.choice(["U1", "U1", "U1", "U1", "Z4", "U1U1", "Z3", "Z3"])
+        dt = rng.choice(["float32", "complex64", "float64", "complex128", "float32"])
+        mode_vals = "int"
+        vals = gen.Values(rng, "int", dt)
+        ncon = rng.choice([2, 2, 3])
+        if sym == "U1":
+            w = rng.randint(11, 17) if ncon == 2 else rng.randint(5, 7)
+            pools = [list(range(lo, lo + w)) for lo in (rng.randint(-6, 0) for _ in range(ncon))]
+        elif sym == "U1U1":
+            ncon = 3
+            pools = [[(p, q) for p in range(-1, 2) for q in range(-1, 2)] for _ in range(ncon)]
+        else:
+            ncon = 3
+            pools = [list(gen.POOL[sym]) for _ in range(ncon)]
+        ks = [sr.BlockIndex({c: 1 for c in pl}, dual=rng.random() < 0.5) for pl in pools]
+        la = [gen.rand_index(sr, rng, sym, maxc=2, maxd=2) for _ in range(rng.randint(0, 1))]
+        rb = [gen.rand_index(sr, rng, sym, maxc=2, maxd=2) for _ in range(rng.randint(0, 1))]
+        a = gen.make_array(sr, rng, sym, la + ks, values=vals, sparsity=rng.choice([0.0, 0.0, 0.15]), exotic=False)
+        if not a.blocks:
+            return
+        bidx = [gen.conj_index(sr, k_) for k_ in ks] + rb
+        sa_ = rng.choice(sorted(a.blocks, key=repr))
+        qb = R.sector_charge(sym, [sa_[len(la) + i] for i in range(ncon)] + [rng.choice(sorted(ix.chargemap, key=repr)) for ix in rb], [ix.dual for ix in bidx])
+        b = gen.make_array(sr, rng, sym, bidx, charge=qb, values=vals, sparsity=rng.choice([0.0, 0.0, 0.15]), exotic=False)
+        axa = list(range(len(la), len(la) + ncon))
+        axb = list(range(ncon))
+        if rng.random() < 0.5:
+            pa = list(range(a.ndim))
+            rng.shuffle(pa)
+            a = a.transpose(tuple(pa))
+            axa = [pa.index(i) for i in axa]
+        ctx.count("feature", "many-terms-pair")
+    else:
+        a, b, axa, axb = gen.contractible_pair(sr, rng, sym, False, maxnd=maxnd, values=vals, maxd=3 if maxnd == 3 else 2, p_ragged=0.12, p_hist=0.1, p_mixclass=0.08)
     exact = mode_vals == "int"
     ra_, rb_ = gen.union_refs(sr, a, b, axa, axb)
     if any(dict(a.indices[i].chargemap) != dict(b.indices[j].chargemap) for i, j in zip(axa, axb)):
@@ -97,6 +133,24 @@ def case_tensordot(ctx, rng):
     nz = bool(np.any(exp != 0))
     if not nz:
         ctx.count("noalign", "zero-result")
+    if many_terms:
+        # how many aligned block pairs feed the fullest output block
+        from collections import Counter
+
+        cnt = Counter()
+        keyb = {}
+        for sb in b.blocks:
+            keyb.setdefault(tuple(sb[j] for j in axb), []).append(sb)
+        for sa in a.blocks:
+            for sb in keyb.get(tuple(sa[i] for i in axa), ()):
+                cnt[(tuple(sa[i] for i in left), tuple(sb[j] for j in right))] += 1
+        top = max(cnt.values(), default=0)
+        ctx.count("top", f"{sym}:{len(axa)}:{min(top, 20)}")
+        if top >= 9:
+            ctx.count("feature", "output-block-with->=9-partial-products")
+            if top & (top - 1):
+                ctx.count("feature", "partial-product-count-not-a-power-of-two")
+            ctx.count("terms", f"{dt}:{mode}")
     if len(ref) == 0 and not preserve:
         if is_array(res):
             ctx.violation("scalar-not-returned", "full contraction without preserve_array returned an array", wit)
@@ -126,7 +180,7 @@ def case_self(ctx, rng):
     import autoray as ar
 
     sr = ctx.sr
-    sym = rng.choice(gen.SYMS5)
+    sym = gen.pick_sym(rng)
     k = rng.choice([1, 2, 2, 3])
     vals = gen.Values(rng, "int", dtype_for(rng))
     head = [gen.rand_index(sr, rng, sym, maxc=3, maxd=2) for _ in range(k)]
@@ -165,7 +219,7 @@ def case_self(ctx, rng):
 
 def case_matmul(ctx, rng):
     sr = ctx.sr
-    sym = rng.choice(gen.SYMS5)
+    sym = gen.pick_sym(rng)
     vals = gen.Values(rng, "int", dtype_for(rng))
     shp = rng.choice([(1, 1), (1, 2), (2, 1), (2, 2)])
     k = gen.rand_index(sr, rng, sym)
@@ -203,7 +257,7 @@ def case_trace(ctx, rng):
     import autoray as ar
 
     sr = ctx.sr
-    sym = rng.choice(gen.SYMS5)
+    sym = gen.pick_sym(rng)
     vals = gen.Values(rng, "int", dtype_for(rng))
     ix = gen.rand_index(sr, rng, sym)
     charge = R.identity(sym) if rng.random() < 0.7 else None
@@ -228,7 +282,7 @@ def case_einsum(ctx, rng):
     import autoray as ar
 
     sr = ctx.sr
-    sym = rng.choice(gen.SYMS5)
+    sym = gen.pick_sym(rng)
     vals = gen.Values(rng, "int", dtype_for(rng))
     npairs = rng.randint(0, 2)
     nfree = rng.randint(0, 2 if npairs else 3)
@@ -291,6 +345,8 @@ def case_einsum(ctx, rng):
 def run(ctx):
     for _, rng in ctx.cases("tensordot", ctx.budget(200000, 4000000)):
         ctx.run_case(case_tensordot, ctx, rng)
+    for _, rng in ctx.cases("many-terms", ctx.budget(3000, 60000)):
+        ctx.run_case(case_tensordot, ctx, rng, True)
     for _, rng in ctx.cases("self", ctx.budget(12000, 250000)):
         ctx.run_case(case_self, ctx, rng)
     for _, rng in ctx.cases("matmul", ctx.budget(30000, 600000)):
